@@ -48,6 +48,10 @@ try:
 except ImportError:  # pragma: no cover
     KR = None
 try:
+    from . import dep_rules as DPR
+except ImportError:  # pragma: no cover
+    DPR = None
+try:
     from . import bcast_rules as BR
 except ImportError:  # pragma: no cover
     BR = None
@@ -75,6 +79,12 @@ RULES = {
     "R55c": _get(KR, "r55_conv"),
     "R55f": _get(KR, "r55_flatten"),
     "R56": _get(KR, "r56_attach_contract"),
+    "R57e": _get(DPR, "r57_ewise"),
+    "R57m": _get(DPR, "r57_matmul"),
+    "R57c": _get(DPR, "r57_conv"),
+    "R57r": _get(DPR, "r57_reduce"),
+    "R57f": _get(DPR, "r57_flatten"),
+    "R57i": _get(DPR, "r57_index"),
     "R55k": _get(KR, "r55_ctors"),
     "R17": RR.r17_eq_fields,
     "R20": RR.r20_ownership_edges,
@@ -125,12 +135,12 @@ RULES = {
 # property -> rules (DESIGN.md section 4)
 PROPERTY_RULES = {
     "C01": ["R9", "R8", "R5", "R27", "R6", "R24", "R11", "R25", "R23", "R26", "R45", "R10", "R33", "R12", "R13", "R15", "R29", "R31", "R32", "R39", "R51"],
-    "C02": ["R12", "R13", "R15", "R9", "R33", "R29", "R31", "R30", "R32", "R39", "R11", "R45", "R51"],
-    "C03": ["R11", "R21", "R55f"],
-    "C04": ["R40", "R41", "R47", "R54", "R55e"],
-    "C05": ["R36", "R38", "R40c", "R41", "R49", "R55m"],
-    "C06": ["R37", "R30", "R55c"],
-    "C07": ["R35", "R16", "R32", "R55p"],
+    "C02": ["R12", "R13", "R15", "R9", "R33", "R29", "R31", "R30", "R32", "R39", "R11", "R45", "R51", "R57e", "R57m", "R57c", "R57r"],
+    "C03": ["R11", "R21", "R55f", "R57f"],
+    "C04": ["R40", "R41", "R47", "R54", "R55e", "R57e"],
+    "C05": ["R36", "R38", "R40c", "R41", "R49", "R55m", "R57m"],
+    "C06": ["R37", "R30", "R55c", "R57c"],
+    "C07": ["R35", "R16", "R32", "R55p", "R57r"],
     "C08": ["R1", "R2", "R3", "R4", "R7", "R50"],
     "C09": ["R8", "R9", "R10", "R5", "R24", "R47", "R14t", "R56"],
     "C10": ["R23", "R20", "R25", "R9", "R11", "R10", "R26", "R24", "R44", "R53"],
@@ -139,7 +149,7 @@ PROPERTY_RULES = {
     "C13": ["R21", "R22", "R28", "R42", "R43", "R46", "R48", "R53", "R23"],
     "C14": ["R21", "R28", "R22", "R20", "R24", "R23", "R42", "R43", "R9", "R46", "R52"],
     "C15": ["R34", "R30"],
-    "C16": ["R16", "R3", "R17", "R41", "R55k"],
+    "C16": ["R16", "R3", "R17", "R41", "R55k", "R57i"],
     "C17": ["R13", "R14", "R26", "R44"],
     "C18": ["R20", "R21", "R7", "R8", "R16l", "R9", "R14t"],
     "C19": ["R19"],
